@@ -203,6 +203,20 @@ def main(tier, replay, t0):
                 samples.append({"case": c.id, "repr": mv, "struct": spec.structs[s0].wgsl(),
                                 "differences": mismatch[s0][:3],
                                 "rustc": [d["message"] for d in diags][:2]})
+    # the checks must not depend on how the GENERATOR was compiled: the same jobs through a
+    # release build of the generator (debug assertions off) must return the same text
+    pairs = [(c, x) for c in camp.cases.values() if not c.frontend_rejected
+             for x in c.cfgs if x["opt"].get("bh") and not x.get("matrix")]
+    if tier == "quick":
+        pairs = pairs[:240]
+    dis, nrel = probes.profile_disagreements(camp, pairs, "c05/release")
+    quad["release_profile_compared"] = nrel
+    for c, x, a, b in dis[:20]:
+        viol.append(Violation("checks-depend-on-build-profile", x["opt"].get("mv", "rust"),
+                              "the generator built in release mode returns another text than "
+                              "the dev build for the same shader and options (dev: %s, release: "
+                              "%s)" % (a.get("result"), b.get("result")),
+                              {"case_id": c.id, "wgsl": c.wgsl, "options": x["opt"]}))
     inconclusive, ndecl = probes.decline_guard(camp, [])
     if quad["match_accepted"] == 0 or quad["mismatch_rejected"] == 0:
         inconclusive.append("empty quadrant: %r" % quad)
